@@ -30,6 +30,7 @@ mod c14;
 mod dce;
 mod gocomp;
 mod namecat;
+mod lower;
 mod nametest;
 mod gopp;
 mod probe;
@@ -75,6 +76,7 @@ fn main() {
         "solve" => solve::main(&args),
         "gopp" => gopp::main(&args),
         "namecat" => namecat::main(&args),
+        "lower" => lower::main(&args),
         "probe" => probe::main(&args),
         "stages" => probe::stages(&args),
         "golden" => probe::golden(&args),
